@@ -79,7 +79,7 @@ func checkC18(c *Ctx, r *Result, tier string) {
 		return false
 	}
 
-	nAdv := 0
+	nAdv, nNL := 0, 0
 	var lexFuncs []*ssa.Function
 	for _, fn := range c.ModFuncs() {
 		if c.PkgOf(fn) == "parser" {
@@ -151,6 +151,9 @@ func checkC18(c *Ctx, r *Result, tier string) {
 				r.Instance("R18a", site, pos, "finding", "line advanced without its column base", true)
 				r.Report(Finding{Rule: "R18a", Site: site, Pos: pos,
 					Msg: key + ": the line counter is advanced without setting the last-newline offset to the current position: every token on the following line is reported with a wrong column"})
+			}
+			if c18NewlineOnly(c, r, fn, bo, site, pos, key) {
+				nNL++
 			}
 		})
 	}
@@ -589,6 +592,7 @@ func checkC18(c *Ctx, r *Result, tier string) {
 	// ---- the bulk form: line += strings.Count(input[a:b], "\n") ------------------------------------
 	bAdv, bScan, bWB := c18Bulk(c, r, lexFuncs, emitFns, fLine, fLastnl, fPos, fStart, inClass)
 	r.Floor("R18a", nAdv+bAdv, 3)
+	r.Floor("R18g", nNL+bAdv, 3)
 	r.Floor("R18d", nScan+bScan, 2)
 	r.Floor("R18c", nWB+bWB, 2)
 }
